@@ -181,7 +181,31 @@ impl<'tcx> Ctx<'tcx> {
                     let resolved = if hp { None } else { Instance::resolve(*def, args).ok() }.map(|i| self.inst_json(&i, depth));
                     let d = self.def_json(def.def_id());
                     let a = self.args_json(args);
-                    json!({"k": "fndef", "name": def.name(), "def": d, "args": a, "resolved": resolved})
+                    // tuple-struct / tuple-variant constructors used as functions
+                    let tcx = self.tcx;
+                    let ctor = catch_unwind(AssertUnwindSafe(|| {
+                        let did = rustc_internal::internal(tcx, def.def_id());
+                        if !tcx.is_constructor(did) {
+                            return None;
+                        }
+                        let ity = rustc_internal::internal(tcx, ty);
+                        let rustc_middle::ty::FnDef(_, iargs) = ity.kind() else { return None };
+                        let out = tcx.fn_sig(did).instantiate(tcx, iargs).skip_binder().output();
+                        let rustc_middle::ty::Adt(adt, _) = out.kind() else { return None };
+                        let vi = adt.variant_index_with_ctor_id(did).as_usize();
+                        let sout: Ty = rustc_internal::stable(out);
+                        Some((sout, vi))
+                    }))
+                    .ok()
+                    .flatten();
+                    let ctor_json = match ctor {
+                        Some((t, vi)) => {
+                            self.tys.insert(t);
+                            json!({"adt_ty": ty_id(&t), "variant": vi})
+                        }
+                        None => Value::Null,
+                    };
+                    json!({"k": "fndef", "name": def.name(), "def": d, "args": a, "resolved": resolved, "ctor": ctor_json})
                 }
                 RigidTy::Closure(def, args) => {
                     let tcx = self.tcx;
